@@ -13,10 +13,12 @@ Operations (tokens separated by single spaces; strings as CV.encS tokens):
   xtxn <idx> <op,op,…>    op = the ops of StoreCore's `txn` | S;verb;node;id;name;port;kind;native;dest;ups;weights;modidx
   every write command of CV.Engine.StoreCore (kv, sc, sd, reg…, txn, …) — run on the local catalog
   dump
-Every answer is computed by the model functions the theorems of CV.Props.C07 are about
-(`CV.Store.applyX`).
+  xdump      gateway-services and mesh-topology (stage 2, CV.Store.GwX)
+Every answer is computed by the model functions the theorems of CV.Props.C07 are about: the engine runs
+`CV.Store.applyG`, whose `XState` component and answer are `CV.Store.applyX`'s (CV.Proofs.StoreGwProj.proj_applyG);
+`dump` prints that component, `xdump` the two tables of stage 2.
 -/
-import CV.Store.CatX
+import CV.Store.GwX
 import CV.Engine.StoreCore
 namespace CV.Engine.C07
 open CV CV.Store CV.Engine.StoreCore
@@ -113,15 +115,22 @@ def showXResult : XResult → String
   | .txn rs [] => "ok:" ++ encList (rs.map showTxnRes)
   | .txn _ es => "errs:" ++ encList (es.map fun (i, e) => encNat i ++ ":" ++ e.name)
 
-def step (s : XState) (toks : List String) : XState × String :=
+def xdump (g : GState) : String :=
+  " ".intercalate [
+    "gw=" ++ encList (g.t.gw.map fun r => semi [encS r.gateway, encS r.service, r.kind.name, encNat r.port, encS r.protocol,
+      encBool r.fromWildcard, encS r.svcKind.raw, encNat r.create, encNat r.modify]),
+    "topo=" ++ encList (g.t.topo.map fun r => semi [encS r.up, encS r.dn, encS (",".intercalate r.refs), encNat r.create, encNat r.modify])]
+
+def step (g : GState) (toks : List String) : GState × String :=
   match toks with
-  | ["reset"] => (XState.empty, "ok")
-  | ["dump"] => (s, dump s)
+  | ["reset"] => (GState.empty, "ok")
+  | ["dump"] => (g, dump g.x)
+  | ["xdump"] => (g, xdump g)
   | _ =>
     match parseXCmd toks with
-    | some (i, c) => let (s', r) := applyX s i c; (s', showXResult r)
-    | none => (s, "bad-op")
+    | some (i, c) => let (g', r) := applyG g i c; (g', showXResult r)
+    | none => (g, "bad-op")
 
-def engine : Engine := { State := XState, init := XState.empty, step := step }
+def engine : Engine := { State := GState, init := GState.empty, step := step }
 
 end CV.Engine.C07
